@@ -79,10 +79,16 @@ AbsOp(kind, cap, m, a, live) ==
     [] m = "peek_newest" -> PR(live, IF n = 0 THEN RNone ELSE RSome(live[n]))
     [] m = "iter"     -> PR(live, RVal(live))
     [] m = "iter_len" -> PR(live, RVal(n))
+    \* the standard iterator adapters on iter(): oldest first, nothing skipped silently
+    [] m = "iter_skip" -> PR(live, RVal(IF a[1] >= n THEN <<>> ELSE SubSeq(live, a[1] + 1, n)))
+    [] m = "iter_nth"  -> PR(live, IF a[1] < n THEN RSome(live[a[1] + 1]) ELSE RNone)
+    [] m = "iter_step" -> PR(live, RVal([j \in 1..((n + a[1] - 1) \div a[1]) |-> live[(j - 1) * a[1] + 1]]))
+    [] m = "iter_last" -> PR(live, IF n = 0 THEN RNone ELSE RSome(live[n]))
     \* exactly the live items, newest first
     [] m = "to_string" -> PR(live, RVal(JoinStr([i \in 1..n |-> ToString(live[n + 1 - i])], " ")))
 BufferMethods == {"capacity", "size", "is_empty", "is_full", "push", "push_force", "pop", "flush", "get", "get_mut",
-                  "copy", "peek_oldest", "copy_oldest", "peek_newest", "iter", "iter_len", "to_string"}
+                  "copy", "peek_oldest", "copy_oldest", "peek_newest", "iter", "iter_len", "to_string",
+                  "iter_skip", "iter_nth", "iter_step", "iter_last"}
 
 \* implementation level: b = [cap, start, end, len, cells]; cells 0-based in the code, 1-based here
 Cell(b, i)  == b.cells[i + 1]
@@ -115,6 +121,10 @@ RingOp(kind, m, a, b) ==
     [] m = "peek_newest" -> PR(b, IF b.len = 0 THEN RNone ELSE RSome(Cell(b, (b.start + b.cap - 1) % b.cap)))
     [] m = "iter"     -> PR(b, RVal([i \in 1..b.len |-> Cell(b, (b.end + i - 1) % b.cap)]))
     [] m = "iter_len" -> PR(b, RVal(b.len))
+    [] m = "iter_skip" -> PR(b, RVal(IF a[1] >= b.len THEN <<>> ELSE [i \in 1..(b.len - a[1]) |-> Cell(b, (b.end + a[1] + i - 1) % b.cap)]))
+    [] m = "iter_nth"  -> PR(b, IF a[1] < b.len THEN RSome(Cell(b, (b.end + a[1]) % b.cap)) ELSE RNone)
+    [] m = "iter_step" -> PR(b, RVal([j \in 1..((b.len + a[1] - 1) \div a[1]) |-> Cell(b, (b.end + (j - 1) * a[1]) % b.cap)]))
+    [] m = "iter_last" -> PR(b, IF b.len = 0 THEN RNone ELSE RSome(Cell(b, (b.end + b.len - 1) % b.cap)))
     [] m = "to_string" -> PR(b, RVal(JoinStr([i \in 1..b.len |-> ToString(Cell(b, (b.start + 2 * b.cap - i) % b.cap))], " ")))
 
 \* refinement mapping: the live items are the len cells from `end`, cyclically
